@@ -161,6 +161,10 @@ func init() {
 			for _, o := range c04Opts {
 				pairs(e, "c04:"+o, "numbers/"+o, nd, nd)
 			}
+			sd := StrDocs()
+			for _, o := range c04Opts {
+				pairs(e, "c04:"+o, "strings/"+o, sd, sd)
+			}
 			k := Keyed(2, false)
 			k = thin(k, 300)
 			pairs(e, "c04:SETKEYS:id", "K/SETKEYS:id", k, k)
